@@ -255,6 +255,8 @@ def check_C04(tier):
     # an aggregate whose argument has no value on one row of its group: the statement fails, whatever the rows before it were
     engine_run(c, "agg-errors", "ErrAggMenu", lines="LinesErrAgg", maxlines=3, maxfiles=1, tdefs=("plain",), modes=("batch", "incr"))
     engine_sim(c, "agg", "AggMenu", lines="LinesRich", maxlines=10, num=2500 if t else 200, modes=("batch",))
+    # COUNT(DISTINCT) over more than 16 distinct values with recurrences (a group's memory of values seen, beyond any small fixed size)
+    engine_sim(c, "count-distinct-wide", "DistinctCountMenu", lines="LinesDistinctWide", maxlines=48, num=1000 if t else 60, modes=("batch",), invs=["TypeOK", "BatchRefinesSem"], minlines=40)
     engine_union(c, t)
     c.rule, c.assumptions, c.exhaustive = ENGINE_RULE, ENGINE_ASSUME, True
     return c.finish()
